@@ -247,6 +247,8 @@ func buildWorld(wc worldCfg, dir string) *world {
 	}
 	if wc.ShortTimeout {
 		y.WriteString("      timeout: 300ms\n")
+	} else {
+		y.WriteString("      timeout: 60s\n") // far from anything a loaded machine could reach
 	}
 	pw, err := c.BuildProxy(c.ProxyOpts{YAML: y.String(), Valid: time.Hour, CookieSecure: wc.Secure, CookieDomain: wc.CookieDomain,
 		CookieName: cookieName, Dir: dir}, auth)
